@@ -450,20 +450,31 @@ fn flat<T: Scalar>(v: &V, prefix: &[f64], c: f64, flat_len: usize, out: &mut Tri
     let mut xs = prefix.to_vec();
     xs.extend(std::iter::repeat(c).take(flat_len));
     let mut big = 0f64;
+    // half of the trials read the view only where it is checked (the flat window's answer must not
+    // depend on the view having been read during the volatile stretch)
+    let read_only_where_checked = (gen::hash_f64s(prefix) ^ flat_len as u64) % 2 == 0;
+    if read_only_where_checked {
+        out.count("flat_trials_read_only_where_checked", 1);
+    }
     for t in 0..xs.len() {
         big = big.max(xs[t].abs());
+        // from the moment the window (N values, N+1 for the change-based views) is flat
+        // long flat stretches are sampled (every 41st step and the last five), short ones checked
+        // at every step
+        let sampled = flat_len <= 200 || (t.wrapping_sub(prefix.len())) % 41 == 0 || t + 5 >= xs.len();
+        let checked = t >= prefix.len() + n && sampled;
         let Ok(got) = guarded(|| {
             inst.update(T::of(xs[t]));
-            inst.last()
+            if checked || !read_only_where_checked {
+                inst.last()
+            } else {
+                None
+            }
         }) else {
             out.count("trials_ended_by_panic_of_code_under_test(C15)", 1);
             return;
         };
-        // from the moment the window (N values, N+1 for the change-based views) is flat
-        // long flat stretches are sampled (every 41st step and the last five), short ones checked
-        // at every step
-        let sampled = flat_len <= 200 || (t - prefix.len()) % 41 == 0 || t + 5 >= xs.len();
-        if t >= prefix.len() + n && sampled {
+        if checked {
             out.count("flat_window_steps_checked", 1);
             if !check(&cx, &xs, t, got, big, out) {
                 return;
